@@ -12,8 +12,9 @@ ROUND = {
     'f': 'var:e@in', 'g': 'rotate_left(var:f@in, 19)', 'h': 'var:g@in',
 }
 W = 'var:w=repeat{0}'
-EXPAND = 'BitXor(BitXor(p1(BitXor(BitXor(%s[SubWithOverflow(var:j@in, 16).0], %s[SubWithOverflow(var:j@in, 9).0]), rotate_left(%s[SubWithOverflow(var:j@in, 3).0], 15))), rotate_left(%s[SubWithOverflow(var:j@in, 13).0], 7)), %s[SubWithOverflow(var:j@in, 6).0])' % (W, W, W, W, W)
-LOAD = 'BitOr(BitOr(BitOr(Shl(from($b_i[MulWithOverflow(var:j@in, 4).0]), 24), Shl(from($b_i[AddWithOverflow(MulWithOverflow(var:j@in, 4).0, 1).0]), 16)), Shl(from($b_i[AddWithOverflow(MulWithOverflow(var:j@in, 4).0, 2).0]), 8)), from($b_i[AddWithOverflow(MulWithOverflow(var:j@in, 4).0, 3).0]))'
+J16, J68 = 'each(Range::Range{0, 16})', 'each(Range::Range{16, 68})'
+EXPAND = 'BitXor(BitXor(p1(BitXor(BitXor(%s[SubWithOverflow(@J@, 16).0], %s[SubWithOverflow(@J@, 9).0]), rotate_left(%s[SubWithOverflow(@J@, 3).0], 15))), rotate_left(%s[SubWithOverflow(@J@, 13).0], 7)), %s[SubWithOverflow(@J@, 6).0])'.replace('@J@', J68) % (W, W, W, W, W)
+LOAD = 'BitOr(BitOr(BitOr(Shl(from($b_i[MulWithOverflow(@J@, 4).0]), 24), Shl(from($b_i[AddWithOverflow(MulWithOverflow(@J@, 4).0, 1).0]), 16)), Shl(from($b_i[AddWithOverflow(MulWithOverflow(@J@, 4).0, 2).0]), 8)), from($b_i[AddWithOverflow(MulWithOverflow(@J@, 4).0, 3).0]))'.replace('@J@', J16)
 BOOL = {
     'ff': ('BitXor(BitXor($x, $y), $z)', 'BitOr(BitOr(BitAnd($x, $y), BitAnd($x, $z)), BitAnd($y, $z))'),
     'gg': ('BitXor(BitXor($x, $y), $z)', 'BitOr(BitAnd($x, $y), BitAnd(Not($x), $z))'),
@@ -42,9 +43,15 @@ def run(cx):
         f = cx.fn('gm_sm3::' + name, 'I-SM3')
         if f is None:
             continue
-        r = I.returns(f, F)
-        low = [v for c, v in r if any(x in ('Le($j, 15)=otherwise', 'Le($j, 15)=1', 'Lt($j, 16)=otherwise') for x in c)]
-        high = [v for c, v in r if any(x in ('Le($j, 15)=0', 'Lt($j, 16)=0') for x in c) and v != '0']
+        # conditional constant propagation over the finite selector domain j = 0..63: the returned expression per j
+        pw = I.piecewise(f, F, 'j', range(64))
+        if pw is not None:
+            low = sorted({pw[j] for j in range(16)})
+            high = sorted({pw[j] for j in range(16, 64)})
+        else:
+            r = I.returns(f, F)
+            low = [v for c, v in r if any(x in ('Le($j, 15)=otherwise', 'Le($j, 15)=1', 'Lt($j, 16)=otherwise') for x in c)]
+            high = [v for c, v in r if any(x in ('Le($j, 15)=0', 'Lt($j, 16)=0') for x in c) and v != '0']
         cx.add('I-SM3', name, low == [lo] and high == [hi], '%s_j: j<=15 -> %s ; 16<=j<=63 -> %s' % (name, low, high), f.loc())
     # ---- compression function
     cf = cx.fn('gm_sm3::cf', 'I-SM3')
@@ -56,16 +63,16 @@ def run(cx):
             for v in ROUND:
                 cx.add('I-SM3', 'cf/round/' + v, tr[v] == ROUND[v], 'round transfer %s\' = %s' % (v.upper(), FR.short(tr[v] or '?', 200)), cf.loc(), {'got': tr[v], 'want': ROUND[v]})
         ws = I.stores(cf, F, 'w')
-        cx.add('I-SM3', 'cf/load', ('var:j@in', LOAD) in ws, 'W_j (j<16) = big-endian word j of the block', cf.loc(), {'stores': [FR.short(x[1], 120) for x in ws]})
-        cx.add('I-SM3', 'cf/expand', ('var:j@in', EXPAND) in ws, 'W_j = P1(W_{j-16} ^ W_{j-9} ^ (W_{j-3} <<< 15)) ^ (W_{j-13} <<< 7) ^ W_{j-6}', cf.loc())
+        cx.add('I-SM3', 'cf/load', (J16, LOAD) in ws, 'W_j (j<16) = big-endian word j of the block', cf.loc(), {'stores': [FR.short(x[1], 120) for x in ws]})
+        cx.add('I-SM3', 'cf/expand', (J68, EXPAND) in ws, 'W_j = P1(W_{j-16} ^ W_{j-9} ^ (W_{j-3} <<< 15)) ^ (W_{j-13} <<< 7) ^ W_{j-6}', cf.loc())
         w1 = I.stores(cf, F, 'w1')
-        cx.add('I-SM3', 'cf/w1', w1 == [('var:j@in', 'BitXor(%s[var:j@in], %s[AddWithOverflow(var:j@in, 4).0])' % (W, W))], "W'_j = W_j ^ W_{j+4}", cf.loc())
-        # loop bounds of the three while-loops: j <= 15, 16..=67, 0..=63
+        cx.add('I-SM3', 'cf/w1', w1 == [(J, 'BitXor(%s[%s], %s[AddWithOverflow(%s, 4).0])' % (W, J, W, J))], "W'_j = W_j ^ W_{j+4}", cf.loc())
+        # loop bounds of the three word loops (counted while-loops and for-loops are written alike): the ranges the
+        # stored indices run over
         P = Prov(cf, F, cut_loops=True); cn = Canon(cf, P)
-        bounds = sorted((cn.c(p.args[0]), p.op, const_int(p.args[1])) for _, p, _, _ in G.bool_switches(cf, P) if p.kind == 'cmp')
-        inits = sorted(const_int(norm(P.rvalue(st['rv'], b, i, 0))) for b, i, st in cf.stmts() if st['k'] == 'assign' and cf.locals[st['lhs']['l']].get('name') == 'j' and st['rv']['k'] == 'use' and st['rv']['op']['k'] == 'const')
-        cx.add('I-SM3', 'cf/loop-bounds', [(o, c) for _, o, c in bounds] == [('Le', 15), ('Le', 63), ('Le', 67)] and inits == [0, 0, 16],
-               'word loops run j = 0..=15, 16..=67, 0..=63 (bounds %s, starts %s)' % (bounds, inits), cf.loc())
+        rngs = sorted({a_ for a_, _ in ws} | {a_ for a_, _ in w1})
+        cx.add('I-SM3', 'cf/loop-bounds', rngs == sorted({J16, J68, J}),
+               'word loops run j = 0..16, 16..68, 0..64 (index ranges %s)' % rngs, cf.loc())
         ff = I.stores(cf, F, 'v_i', through_deref=True)
         want = [(str(k), 'BitXor($v_i[%d], phi($v_i[%d] | %s))' % (k, k, ROUND['abcdefgh'[k]])) for k in range(8)]
         cx.add('I-SM3', 'cf/feed-forward', ff == want, 'V_{i+1} = ABCDEFGH xor V_i, word by word', cf.loc())
